@@ -62,13 +62,13 @@ func TestC05_GeneratedCode(t *testing.T) {
 		set, feats := schema.GenSet(s, "vmod")
 		ws, err := NewWorkspace("vmod")
 		if err != nil {
-			rt.Fatalf("infrastructure: %v", err)
+			ev.InfraSkip(rt, c05, "%v", err)
 		}
 		defer ws.Remove()
 		kase := c05case{Sources: setSources(set)}
 		key, msg, out := buildAndEmit(ws, set, schema.Style{S: s})
 		if key == "infra" {
-			rt.Fatalf("infrastructure: %s", msg)
+			ev.InfraSkip(rt, c05, "%s", msg)
 		}
 		if key != "" {
 			kase.Output = clipOut(out)
@@ -78,7 +78,7 @@ func TestC05_GeneratedCode(t *testing.T) {
 		for _, p := range set.Pkgs {
 			first, err := readGenerated(filepath.Join(ws.Dir, p.ID))
 			if err != nil {
-				rt.Fatalf("infrastructure: %v", err)
+				ev.InfraSkip(rt, c05, "%v", err)
 			}
 			for round := 0; round < 2; round++ {
 				dst := filepath.Join(ws.Dir, fmt.Sprintf("regen_%s_%d", p.ID, round))
@@ -90,7 +90,7 @@ func TestC05_GeneratedCode(t *testing.T) {
 				}
 				again, err := readGenerated(dst)
 				if err != nil {
-					rt.Fatalf("infrastructure: %v", err)
+					ev.InfraSkip(rt, c05, "%v", err)
 				}
 				if len(again) != len(first) {
 					ev.Violation(rt, c05, "regeneration-differs", kase, "regenerating %s produced %d files, first run %d", p.ID, len(again), len(first))
@@ -110,7 +110,7 @@ func TestC05_GeneratedCode(t *testing.T) {
 		seed := rapid.IntRange(1, 1<<30).Draw(rt, "driverseed")
 		o, ok, timedOut := ws.GoTest(10*time.Minute, []string{"-v", "-run", "TestVerifC05", "-rapid.checks=60", "-rapid.seed=" + strconv.Itoa(seed), "-rapid.nofailfile"}, ids...)
 		if timedOut {
-			rt.Fatalf("infrastructure: emitted drivers did not finish in 10 min")
+			ev.InfraSkip(rt, c05, "emitted drivers did not finish in 10 min")
 		}
 		if m := violRe.FindStringSubmatch(o); m != nil {
 			kase.Output = clipOut(m[1])
@@ -178,7 +178,7 @@ func TestC05_GeneratedCode(t *testing.T) {
 			from := st.f.Type.Name
 			st.f.Type.Name = sibling[from]
 			if err := ws.RewriteSources(st.p, schema.Style{S: s}); err != nil {
-				rt.Fatalf("infrastructure: %v", err)
+				ev.InfraSkip(rt, c05, "%v", err)
 			}
 			kase2 := c05case{Sources: setSources(set)}
 			if r := ws.Generate(st.p.ID, ""); r.Exit != 0 {
@@ -187,7 +187,7 @@ func TestC05_GeneratedCode(t *testing.T) {
 			}
 			inPlace, err := readGenerated(filepath.Join(ws.Dir, st.p.ID))
 			if err != nil {
-				rt.Fatalf("infrastructure: %v", err)
+				ev.InfraSkip(rt, c05, "%v", err)
 			}
 			dst := filepath.Join(ws.Dir, "fresh_"+st.p.ID)
 			os.MkdirAll(dst, 0o755)
@@ -197,7 +197,7 @@ func TestC05_GeneratedCode(t *testing.T) {
 			}
 			fresh, err := readGenerated(dst)
 			if err != nil {
-				rt.Fatalf("infrastructure: %v", err)
+				ev.InfraSkip(rt, c05, "%v", err)
 			}
 			for name, content := range fresh {
 				if inPlace[name] != content {
